@@ -27,7 +27,17 @@ fn loopback(family: &str) -> Option<&'static str> {
     match family {
         "v4" => Some("127.0.0.1:0"),
         "v6" => Some("[::1]:0"),
+        // an IPv4 peer named by its IPv4-mapped IPv6 address (::ffff:127.0.0.1): the peer listens on IPv4
+        "v4m" => Some("127.0.0.1:0"),
         _ => None,
+    }
+}
+
+/// the address the query is given for a peer listening on `local`
+fn target(family: &str, local: SocketAddr) -> SocketAddr {
+    match (family, local) {
+        ("v4m", SocketAddr::V4(a)) => SocketAddr::new(std::net::IpAddr::V6(a.ip().to_ipv6_mapped()), a.port()),
+        _ => local,
     }
 }
 
@@ -67,7 +77,7 @@ fn entry_realudp(args: &[&str]) -> String {
     };
     let server = UdpSocket::bind(bind).expect("bind loopback");
     server.set_read_timeout(Some(Duration::from_millis(20))).unwrap();
-    let addr: SocketAddr = server.local_addr().unwrap();
+    let addr: SocketAddr = target(args[0], server.local_addr().unwrap());
     let stop = Arc::new(AtomicBool::new(false));
     let seen: Arc<Mutex<Vec<Vec<u8>>>> = Arc::new(Mutex::new(Vec::new()));
     let (stop2, seen2) = (stop.clone(), seen.clone());
@@ -112,7 +122,7 @@ fn entry_realecho(args: &[&str]) -> String {
         "udp" => {
             let server = UdpSocket::bind(bind).expect("bind");
             server.set_read_timeout(Some(Duration::from_millis(2000))).unwrap();
-            let addr = server.local_addr().unwrap();
+            let addr = target(args[1], server.local_addr().unwrap());
             let h = std::thread::spawn(move || {
                 let mut buf = vec![0u8; 70000];
                 match server.recv_from(&mut buf) {
@@ -142,7 +152,7 @@ fn entry_realecho(args: &[&str]) -> String {
         }
         "tcp" => {
             let listener = TcpListener::bind(bind).expect("bind");
-            let addr = listener.local_addr().unwrap();
+            let addr = target(args[1], listener.local_addr().unwrap());
             let h = std::thread::spawn(move || {
                 let (mut s, _) = listener.accept().ok()?;
                 s.set_read_timeout(Some(Duration::from_millis(2000))).ok()?;
@@ -179,7 +189,7 @@ fn entry_realrefused(args: &[&str]) -> String {
     let (Some(bind), Ok(ms)) = (loopback(args[0]), args[1].parse::<u64>()) else { return "bad-case".into() };
     let addr = {
         let l = TcpListener::bind(bind).expect("bind");
-        l.local_addr().unwrap()
+        target(args[0], l.local_addr().unwrap())
     };
     let t0 = Instant::now();
     let r = VTcpSocket::new(&addr, &settings(ms, 0));
@@ -193,10 +203,10 @@ fn entry_realrefused(args: &[&str]) -> String {
 /// A loopback UDP server that answers the n-th request with the n-th scripted delivery (`~` = silent for that
 /// request, exhausted = silent for ever); runs `client` against it and returns (what `client` printed, the requests
 /// the server saw, elapsed milliseconds).
-fn with_udp_server(bind: &str, deliveries: Vec<Delivery>, client: impl FnOnce(&SocketAddr) -> String) -> (String, Vec<Vec<u8>>, u128) {
+fn with_udp_server(family: &str, bind: &str, deliveries: Vec<Delivery>, client: impl FnOnce(&SocketAddr) -> String) -> (String, Vec<Vec<u8>>, u128) {
     let server = UdpSocket::bind(bind).expect("bind loopback");
     server.set_read_timeout(Some(Duration::from_millis(20))).unwrap();
-    let addr: SocketAddr = server.local_addr().unwrap();
+    let addr: SocketAddr = target(family, server.local_addr().unwrap());
     let stop = Arc::new(AtomicBool::new(false));
     let seen: Arc<Mutex<Vec<Vec<u8>>>> = Arc::new(Mutex::new(Vec::new()));
     let (stop2, seen2) = (stop.clone(), seen.clone());
@@ -238,7 +248,7 @@ fn entry_realgs2(args: &[&str]) -> String {
         Some(ConnScript::Open(d)) => d,
         _ => vec![],
     };
-    let (out, reqs, elapsed) = with_udp_server(bind, deliveries, |addr| {
+    let (out, reqs, elapsed) = with_udp_server(args[0], bind, deliveries, |addr| {
         show_res(&gamedig::protocols::gamespy::two::query(addr, settings(ms, retries)), crate::gs2::show_response)
     });
     format!("{} ;; {} ;; T{}", out, reqs.iter().map(|d| hex(d)).collect::<Vec<_>>().join(","), elapsed)
@@ -254,7 +264,7 @@ fn entry_realjava(args: &[&str]) -> String {
         return "bad-case".into();
     };
     let listener = TcpListener::bind(bind).expect("bind loopback");
-    let addr = listener.local_addr().unwrap();
+    let addr = target(args[0], listener.local_addr().unwrap());
     let stop = Arc::new(AtomicBool::new(false));
     let stop2 = stop.clone();
     let handle = std::thread::spawn(move || {
@@ -292,7 +302,7 @@ fn entry_realtcp(args: &[&str]) -> String {
         _ => return "bad-case".into(),
     };
     let listener = TcpListener::bind(bind).expect("bind");
-    let addr = listener.local_addr().unwrap();
+    let addr = target(args[0], listener.local_addr().unwrap());
     let done = Arc::new(AtomicBool::new(false));
     let done2 = done.clone();
     let h = std::thread::spawn(move || {
@@ -357,7 +367,7 @@ fn entry_realhttp(args: &[&str]) -> String {
         return "bad-case".into();
     }
     let listener = TcpListener::bind(bind).expect("bind");
-    let addr = listener.local_addr().unwrap();
+    let addr = target(args[0], listener.local_addr().unwrap());
     let done = Arc::new(AtomicBool::new(false));
     let done2 = done.clone();
     let refused = mode == "refused";
@@ -445,7 +455,7 @@ fn entry_realfam(args: &[&str]) -> String {
     let Some(inner) = crate::find_entry(args[4]) else { return "unknown-entry".into() };
     let server = UdpSocket::bind(bind).expect("bind loopback");
     server.set_read_timeout(Some(Duration::from_millis(10))).unwrap();
-    let addr: SocketAddr = server.local_addr().unwrap();
+    let addr: SocketAddr = target(args[0], server.local_addr().unwrap());
     let stop = Arc::new(AtomicBool::new(false));
     let seen: Arc<Mutex<Vec<Vec<u8>>>> = Arc::new(Mutex::new(Vec::new()));
     let (stop2, seen2) = (stop.clone(), seen.clone());
